@@ -753,6 +753,12 @@ func main() {
 				fail(err)
 			}
 		}
+	case "stoporder":
+		for i := 0; i < sf.Sample; i++ {
+			if err := runStopOrder(sf.N, emit); err != nil {
+				fail(err)
+			}
+		}
 	case "c08":
 		if err := runC08(rng, sf.Sample, emit); err != nil {
 			fail(err)
